@@ -46,8 +46,6 @@ _cases_base = cases
 
 
 def cases(tier, seed):   # noqa: F811
-    for c in _cases_base(tier, seed):
-        yield c
     # several query users at once on one server AE, with line-level pre-emption concentrated
     # in the data-set encode/decode helpers every association goes through
     rnd = random.Random('c16h/%d' % seed)
@@ -56,6 +54,9 @@ def cases(tier, seed):   # noqa: F811
                    variant=rnd.choice(['patient', 'study', 'mwl']), delay=0, final='real',
                    sched='uniform', align=False, others=rnd.choice([2, 3]), fine=True, hot=True,
                    seed=seed * 100019 + i)
+    # (the bulk comes last so that a wall-clock budget cut never drops the family above)
+    for c in _cases_base(tier, seed):
+        yield c
 
 
 def _ds(rnd, k):
